@@ -2,6 +2,7 @@
 
 mod c09;
 mod c10;
+mod c10gen;
 mod driver;
 mod exec;
 mod hist;
